@@ -52,9 +52,12 @@ func (s *sessionMetadatasState) mergeSessions(sessions []*api.SessionMetadatas) 
 	return nil
 }
 func (s *sessionMetadatasState) dump(event *api.StateBroadcastEvent) {
-	sessions := s.All()
-	for idx := range sessions {
-		event.SessionMetadatas = append(event.SessionMetadatas, &sessions[idx])
+	// removed entries travel too: a node that missed the removal must learn it from the snapshot
+	s.mu.Lock()
+	defer s.mu.Unlock()
+	for _, md := range s.sessions {
+		session := md
+		event.SessionMetadatas = append(event.SessionMetadatas, &session)
 	}
 }
 func (s *sessionMetadatasState) Create(id string, clientID string, connectedAt int64, lwt *packet.Publish, mountpoint string) error {
